@@ -448,6 +448,15 @@ def forbidden_scan(rel_files=None):
         for m in FORBIDDEN.finditer(txt2):
             ln = txt2.count('\n', 0, m.start()) + 1
             hits.append('%s:%d: %s' % (rel, ln, m.group(0)))
+        # Variable / Hypothesis / Context outside a Section declare axioms
+        depth = 0
+        for i, line in enumerate(txt2.split('\n'), 1):
+            if re.match(r'\s*Section\s+\w+', line):
+                depth += 1
+            if depth == 0 and re.match(r'\s*(Variable|Variables|Hypothesis|Hypotheses|Context)\b', line):
+                hits.append('%s:%d: section-less %s' % (rel, i, line.strip()[:40]))
+            if depth > 0 and re.match(r'\s*End\s+\w+\s*\.', line):
+                depth -= 1
     return hits
 
 
